@@ -650,6 +650,12 @@ def rule_guarded_den(chk, prog):
             den_node = s.node.value if s.kind == "div" else s.node.target
         if isinstance(s.node, ast.Call):
             den_node = s.node.args[1] if s.kind == "div" else s.node.args[0]
+        if s.guarded_where and s.where_no_out:
+            chk.violation("guarded-den", m.rel, qual, text, s.node.lineno,
+                          "the division is masked with `where=` but no `out=` array is given: numpy leaves the "
+                          "masked-out entries of the result UNINITIALISED (arbitrary memory, possibly nan/inf), and "
+                          "they are used here as if they were zero", instance=inst)
+            continue
         if s.guarded_where:
             chk.ok("guarded-den", inst + " guarded by where=", nontrivial=False)
             continue
@@ -1040,6 +1046,10 @@ def mutants(tree):
         Mutant("V4Map derivative evaluated at the unbounded exponential", TD,
                "        tmp = np.exp(-np.abs(self.gamma * (x[i] - x[j])))\n        tmp = dfdy",
                "        tmp = np.exp(self.gamma * (x[i] - x[j]))\n        tmp = dfdy", expect="exp-ratio"),
+        Mutant("eval_xc_cider: masked np.divide without out=", NI,
+               "exc[:] += exc_ml / (rho[:, 0].sum(axis=0) + 1e-16)",
+               "exc[:] += np.divide(exc_ml, rho[:, 0].sum(axis=0), where=rho[:, 0].sum(axis=0) >= self.rhocut)",
+               expect="guarded-den"),
         Mutant("zero only res under rhocut", XE, "                res[..., cond] = 0.0\n                dres[..., cond] = 0.0\n",
                "                res[..., cond] = 0.0\n", expect="cutoff-pair"),
         Mutant("zero only f under rhocut (v2 SEP)", XE2, "                f[cond] = 0.0\n                df[cond] = 0.0\n", "                f[cond] = 0.0\n",
